@@ -54,6 +54,8 @@ TABLE = {
     "../seeded/C13-6/patch.diff": ("contracts.c03", "_coerce_to_signal_type", None),
     "../seeded/C14-5/patch.diff": ("contracts.c14", "_infer_bundle_literal_type", "elements: bun('a',); siga; "),
     "../seeded/C05-2/patch.diff": ("contracts.c05", "_handle_latch_write_standard", "sr_latch"),
+    "../seeded/C10-1/patch.diff": ("contracts.c10", "_apply_mst_to_source_fanout", None),
+    "../seeded/C10-3/patch.diff": ("contracts.c10", "_apply_mst_to_source_fanout", None),
     "../seeded/C01-4/patch.diff": ("contracts.c07", "_configure_decider", "operation = <"),
 }
 RUNNER = r'''
